@@ -22,7 +22,7 @@ PROP = {
     "lean_modules": ["AxVerif.Model.Pool", "AxVerif.Lemmas.Pool", "AxVerif.Model.Fuzz", "AxVerif.Model.Bytes"],
     "rule": "pool: job sequences (blocking calls and FIFO bursts of ok / err / panicking jobs) on pools of 1-8 workers through the "
             "task runner of a real Database; non-trivial = a sequence with an err or panicking job or a burst longer than the pool. "
-            "fuzz: one self-contained sequence of 12-300 statements per case (one of 32 themes) on a fresh pre-populated database (1-3 tables of random "
+            "fuzz: one self-contained sequence of 12-300 statements per case (one of 33 themes) on a fresh pre-populated database (1-3 tables of random "
             "column types, pool size 1-3, autocommit or one session): strings (random characters, lossily decoded random bytes, token "
             "soups of the lexer's vocabulary, truncated and mutated valid statements, DDL, oversized literals, long garbage runs, nesting "
             "to depth 2000, 40-300 versions of one row, multi-row and self-referencing inserts, statements that fail on a late row) and "
@@ -30,7 +30,8 @@ PROP = {
             "sub-queries, HAVING, DML); after every statement: no panic in any thread, a "
             "probe SELECT answers on the same session and database, and a dump of all tables is unchanged if the statement failed. "
             "non-trivial = every case except the `valid` theme (plain valid statements); distinct = distinct case line. "
-            "Each case belongs to one theme; 25 % of the cases come from the themes that are regions of listed findings.",
+            "Each case belongs to one theme; 25 % of the cases come from the 8 themes that are regions of listed findings; findings are "
+            "attributed by theme tag + failure kind (panic@<file>, probe-failed, state-changed-on-error, abort), not by line numbers.",
     "assumptions": [
         "the Lean driver answers `ok-or-error` for every well-formed string case: this encodes the property's oracle (the call returns a "
         "result or an error, never a panic or a hang) — the model does not predict how arbitrary strings parse; a panic, a hang, a failed "
@@ -65,8 +66,8 @@ TEXT = {
     "design_ref": "DESIGN.md §5 C16",
     "note": "Trusted: Lean kernel; the hand-written pool model (validated differentially); the harness' panic hook, probe and dump. "
             "Found and fixed: worker death on panic, 256th version of a row (= 256th INSERT into any table), DROP TABLE IF EXISTS dropping "
-            "table 0, stack overflow on deep nesting. Listed findings (panic sites in the evaluator and value arithmetic, ALTER/INDEX on "
-            "populated tables, rows with several versions of one session) are regions in which the verdict is weaker: a failure there is "
+            "table 0, stack overflow on deep nesting. INSERT … SELECT from the same table. Listed findings (todo!/unreachable! arms of the evaluator, ALTER/INDEX on "
+            "populated tables, UNIQUE-index debris, failed multi-row UPDATE keeping its first rows, no statement atomicity in sessions) are regions in which the verdict is weaker: a failure there is "
             "attributed by theme tag and panic location only.",
     "technique": "Lean 4 invariant/termination proofs over a worker-pool state machine + differential correspondence; generative fuzzing "
                  "of the public SQL API with a total Lean oracle",
